@@ -1710,7 +1710,7 @@ impl SysComp {
                     let rx = &w._packet_rx;
                     // once datagrams have gone missing a few times in this process the long wait buys nothing more: a
                     // change that loses them would otherwise cost ~3 s per op and the check would not end in time
-                    let rounds = if RX_LOST.load(std::sync::atomic::Ordering::Relaxed) >= 3 { 120 } else { 3000 };
+                    let rounds = if RX_LOST.load(std::sync::atomic::Ordering::Relaxed) >= 1 { 120 } else { 2000 };
                     self.rt.block_on(async {
                         for round in 0..rounds {
                             if rx.len() >= target && round >= 2 {
